@@ -22,6 +22,9 @@ type ReplicationStreamObserver struct {
 	interval       time.Duration
 }
 
+// maxObservedStreamIndex bounds the stream table: far above any supported history shard count.
+const maxObservedStreamIndex = 1 << 20
+
 // allow unit tests to test the log output
 type loggable interface {
 	Warn(msg string, tags ...tag.Tag)
@@ -40,6 +43,12 @@ func NewReplicationStreamObserver(logger loggable) *ReplicationStreamObserver {
 func (s *ReplicationStreamObserver) ReportStreamValue(idx int32, value int32) {
 	if idx < 0 {
 		s.logger.Warn("ReplicationStreamObserver NotifyConnect called with negative streamIndex")
+		return
+	}
+	if idx >= maxObservedStreamIndex {
+		// Shard ids come straight from stream metadata. Growing the table for an absurd id would overflow the
+		// int32 size computation below (panicking with the lock held) or allocate gigabytes.
+		s.logger.Warn("ReplicationStreamObserver called with a streamIndex too large to track")
 		return
 	}
 	s.streamGrowLock.Lock()
